@@ -224,6 +224,18 @@ def gen_str(out, rng, tier):
                 ns = set(rng.sample(sorted(ns), min(4, len(ns))))
             for n in sorted(ns):
                 out.append("%s STRNCMP_EQUAL %s %s %x" % (txt(rng, "STRNCMP_EQUAL"), tb(e), tb(a), n))
+    # full byte range: every byte against its case partner (c ^ 0x20) and its sign partner (c ^ 0x80); only A-Z / a-z fold
+    for c in range(1, 256):
+        for d in (c ^ 0x20, c ^ 0x80):
+            if 0x5c in (c, d) or d == 0:
+                continue
+            x, y = bytes([c]), bytes([d])
+            out.append("0 STRCMP_NOCASE_EQUAL %s %s" % (tb(x), tb(y)))
+            out.append("0 STRCMP_NOCASE_CONTAINS %s %s" % (tb(x), tb(b"<" + y + b">")))
+            out.append("0 STRCMP_EQUAL %s %s" % (tb(x), tb(y)))
+            out.append("0 STRCMP_CONTAINS %s %s" % (tb(x), tb(b"<" + y + b">")))
+            out.append("0 STRNCMP_EQUAL %s %s 2" % (tb(b"=" + x), tb(b"=" + y)))
+            out.append("0 MEMCMP_EQUAL %s %s 1" % (tb(x), tb(y)))
     # random strings over a small alphabet (many substrings / case pairs), no backslash
     alpha = b"aAbBzZ@[`{\x80\xe1\xc1 \x01"
     n = 400 if tier == "quick" else 40000
